@@ -62,7 +62,7 @@ struct VECTOR_BLF_EXPORT EthernetStatus final : ObjectHeader {
     };
 
     /** flags */
-    uint16_t flags;
+    uint16_t flags {};
 
     /** enumeration for linkStatus */
     enum LinkStatus : uint8_t {
@@ -195,12 +195,12 @@ struct VECTOR_BLF_EXPORT EthernetStatus final : ObjectHeader {
     /**
      * reservedEthernetStatus1
      */
-    uint32_t reservedEthernetStatus1;
+    uint32_t reservedEthernetStatus1 {};
 
     /**
      * reservedEthernetStatus1
      */
-    uint32_t reservedEthernetStatus2;
+    uint32_t reservedEthernetStatus2 {};
 
     /**
      * API major number (see FileStatistics)
